@@ -73,7 +73,8 @@ def run(ctx):
         level="proof",
         rule="histories of Init(config stage / configFunc / construction failure, per-mountpoint fs.Mount failure "
              "during restore) / Mount / Check / Unmount (fs call failures, unknown and OS mountpoints) / Close / "
-             "manager restart on the kept bolt file, 10-60 ops over 6 mountpoints x 3 label sets, after 6 hand-written "
+             "manager restart on the kept bolt file (40% of re-Inits re-send the previous config byte for byte), 10-60 ops "
+             "over 6 mountpoints x 3 label sets, after 7 hand-written "
              "scenarios; the REAL Server (real bolt file, real service.NewFileSystem, recording fake filesystems via "
              "VerifWrapFileSystem) is compared op by op with the Lean model (result class, status, curFs, config, "
              "filesystem call log, store records, fsMap owners, live backend mounts) and the C17 predicate is "
